@@ -90,9 +90,26 @@ func c42(c *engine.Ctx) {
 		} else {
 			n2++
 			// the context must be the goroutine's parameter, which connect binds to dialCtx (R3)
+			// closing may be delegated to a helper of the package that is handed the
+			// connection and closes it on every path on which it is not nil
+			viaHelper := false
 			isClose := func(i ssa.Instruction) bool {
 				ci, ok := i.(ssa.CallInstruction)
-				return ok && ci.Common().IsInvoke() && ci.Common().Method.Name() == "Close" && isDialRes(ci.Common().Value, 0)
+				if !ok {
+					return false
+				}
+				if ci.Common().IsInvoke() && ci.Common().Method.Name() == "Close" && isDialRes(ci.Common().Value, 0) {
+					return true
+				}
+				if h := ci.Common().StaticCallee(); h != nil && len(h.Blocks) > 0 && h.Pkg == try.Pkg {
+					for k, a := range engine.Args(ci.Common()) {
+						if k < len(h.Params) && isDialRes(a, 0) && closesNonNil(h, h.Params[k]) {
+							viaHelper = true
+							return true
+						}
+					}
+				}
+				return false
 			}
 			nilEdges := engine.EdgesWhere(try, func(k engine.Cmp) bool {
 				return isDialRes(k.X, 0) && engine.IsNil(k.Y) && k.Op == token.EQL
@@ -103,7 +120,7 @@ func c42(c *engine.Ctx) {
 					leak = true
 				}
 			}
-			c.Check(!leak && len(nilEdges) >= 1, "C42.R2", "dial-goroutine/closes-on-cancel", sendSel.Pos(), "when its context ended, the goroutine must close a non-nil connection on every path (a late success would leak)")
+			c.Check(!leak && (len(nilEdges) >= 1 || viaHelper), "C42.R2", "dial-goroutine/closes-on-cancel", sendSel.Pos(), "when its context ended, the goroutine must close a non-nil connection on every path (a late success would leak)")
 		}
 	}
 	// results channel: made unbuffered in connect
